@@ -15,6 +15,7 @@
 # define PRE(name, e)   __CPROVER_requires(e)
 # define POST(name, e)  __CPROVER_ensures(e)
 # define ASSIGNS(...)   __CPROVER_assigns(__VA_ARGS__)
+# define FREES(...)     __CPROVER_frees(__VA_ARGS__)
 # define RET            __CPROVER_return_value
 # define OLD(e)         __CPROVER_old(e)
 # define SPEC static inline
@@ -23,6 +24,7 @@
 # define PRE(name, e)   if (!(e)) { printf("  precondition clause `%s' is false\n", #name); ++n_pre_bad; }
 # define POST(name, e)  if (!(e)) { printf("  postcondition clause `%s' is FALSE on the real code\n", #name); ++n_post_bad; } else { printf("  postcondition clause `%s' holds\n", #name); }
 # define ASSIGNS(...)
+# define FREES(...)
 # define SPEC static inline
 #elif defined(VERIF_NAMES)
 # define PRE(name, e)   @@PRE name@@
